@@ -125,6 +125,12 @@ fn main() {
                 ctx.only_history = Some((f.to_string(), h));
                 i += 1;
             }
+            "--known" => {
+                let v = need(i);
+                let list: Vec<String> = v.split(',').filter(|x| !x.is_empty()).map(|x| x.to_string()).collect();
+                let _ = mccore::report::KNOWN_SIGNATURES.set(list);
+                i += 1;
+            }
             "--verbose" => ctx.verbose = true,
             other => {
                 eprintln!("unknown argument {}", other);
